@@ -16,6 +16,14 @@ class _Skip:
 SKIP = _Skip()     # model value of a reference whose function raised param.Skip: the target keeps what it has
 
 
+class _Err:
+    def __repr__(self):
+        return "<reference raises>"
+
+
+ERR = _Err()       # model value of a reference whose evaluation raises (e.g. a division by a source that is 0 right now)
+
+
 def _scaled(self):
     return self.v * 2
 
@@ -62,6 +70,7 @@ def make_classes():
 #   ["str", si]                   S_si.param.s
 #   ["meth", si]                  the bound method S_si.combo = depends('scaled', 'w'), scaled = depends('v')
 #   ["skipbind", si, pn]          param.bind(f, S_si.param.<pn>) where f raises param.Skip for negative arguments
+#   ["rxdiv", si, pi, sj, pj]     S_si.param.<pi>.rx() // S_sj.param.<pj>.rx()   (raises while the divisor is 0)
 
 _si = st.integers(0, 1)
 _pn = st.sampled_from(SRC_NUM)
@@ -77,6 +86,8 @@ num_ref = st.one_of(
 ).map(list)
 # a bound function that produces no value (raises Skip) while its argument is negative
 skip_ref = st.tuples(st.just("skipbind"), _si, _pn).map(list)
+# an rx expression that raises (ZeroDivisionError) while its second operand is 0
+div_ref = st.tuples(st.just("rxdiv"), _si, _pn, _si, _pn).map(list)
 _item = st.one_of(st.tuples(st.just("p"), _si, _pn), st.tuples(st.just("p"), _si, _pn), st.tuples(st.just("k"), st.integers(0, 9))).map(list)
 list_ref = st.lists(_item, min_size=1, max_size=3).map(lambda v: ["nlist", v])
 dict_ref = st.lists(_item, min_size=1, max_size=2).map(lambda v: ["ndict", v])
@@ -128,6 +139,10 @@ def build_ref(spec, srcs):
                 raise param.Skip
             return a + 0.5
         return (param.bind(parse, srcs[si].param[pn]), (lambda mv: SKIP if mv[(si, pn)] < 0 else mv[(si, pn)] + 0.5), {(si, pn)})
+    if k == "rxdiv":
+        _, si, pi, sj, pj = spec
+        return (srcs[si].param[pi].rx() // srcs[sj].param[pj].rx(),
+                (lambda mv: ERR if mv[(sj, pj)] == 0 else mv[(si, pi)] // mv[(sj, pj)]), {(si, pi), (sj, pj)})
     if k == "rx":
         _, si, pi, sj, pj, kk = spec
         return (srcs[si].param[pi].rx() * kk + srcs[sj].param[pj].rx(),
